@@ -410,7 +410,7 @@ UFUNCS = {"np.sqrt", "np.abs", "np.cos", "np.sin", "np.arctan2", "np.exp",
           "np.arctan", "np.sinh", "np.cosh", "np.tanh", "np.arcsinh",
           "np.absolute", "np.log", "np.isnan", "np.emath.sqrt", "np.isclose",
           "np.logical_and", "np.logical_or", "np.logical_not", "np.angle",
-          "np.arcsin", "np.power", "np.hypot"}
+          "np.arcsin", "np.power", "np.hypot", "np.isfinite", "np.isinf"}
 
 
 class Interp:
@@ -1275,6 +1275,14 @@ class Interp:
             return AArr(a.shape + (2,))     # complex -> pair of reals
         if name in ("any", "all") and not args and not kw:
             return ABool()
+        if name in ("any", "all", "prod", "max", "min", "mean"):
+            # a reduction along named axes
+            axis = kw.get("axis", args[0] if args else None)
+            if axis is None:
+                return ABool() if name in ("any", "all") else AScal()
+            ax = _norm_axes(axis, len(a.shape))
+            rest = tuple(d for i, d in enumerate(a.shape) if i not in ax)
+            return AArr(rest) if rest else ANpScal()
         if name == "sort":
             axis = kw.get("axis", args[0] if args else -1)
             _norm_axes(axis, len(a.shape))
